@@ -267,10 +267,21 @@ def work_length(args):
     pre5 = [letters(c) for c in cs] + [z3.Or(*bad)]
     if L <= (9 if tier == 'thorough' else 6):
         for st in (STYLES if tier == 'thorough' else ['snake', 'camel']):
-            for s, (kind, val), q in P.explore(I, pre5, lambda: sym_rename(I, P.SStr(cs), st)):
+            def twice():
+                # the same name twice in one process state: refused both times (a memo filled by the refused call would show)
+                out = []
+                for _rep in (0, 1):
+                    try:
+                        sym_rename(I, P.SStr(cs), st)
+                        out.append('accepted')
+                    except P.PyRaise as pr:
+                        out.append(pr.exc)
+                return out
+            for s, (kind, val), q in P.explore(I, pre5, twice):
                 stats['paths'] += 1
                 stats['queries'] += q
-                if not (kind == 'raise' and (val is ValueError or isinstance(val, ValueError))):
+                refused = lambda x: x is ValueError or isinstance(x, ValueError)
+                if kind == 'raise' or not (refused(val[0]) and refused(val[1])):
                     m = s.model() if str(s.check()) == 'sat' else None
                     stats['viol'].append(dict(L=L, style=st, clause='P5 refusal', name=to_str(m, P.SStr(cs)) if m else None))
     stats['wall'] = time.time() - t0
@@ -348,11 +359,13 @@ def replay(v):
             y = rename_field(v['name2'], st)
             return rename_field(x, 'snake') != n or rename_field(y, 'snake') != v['name2']
         if c == 'P5 refusal':
-            try:
-                rename_field(n, st)
-                return True
-            except ValueError:
-                return False
+            for _rep in (0, 1):
+                try:
+                    rename_field(n, st)
+                    return True
+                except ValueError:
+                    pass
+            return False
     except Exception:
         return True      # a different exception than the property allows
     return False
